@@ -7,6 +7,8 @@ canon = json.load(open(f"{root}/known_findings.json"))
 by_id = {f["id"]: f for f in canon}
 fixed = dict(a.split("=") for a in sys.argv[1:])
 for path in sorted(glob.glob(f"{root}/known_findings.d/*.json")):
+    if os.path.basename(path).startswith("X"):
+        continue            # extended-coverage checks (not listed properties) keep their findings in known_findings.d/ only
     for f in json.load(open(path)):
         pid = f["property"]
         if pid in fixed and f.get("status") == "open":
